@@ -187,7 +187,8 @@ class MpReachNLRI(Attribute):
                 nlri = IPv6LabeledUnicast.parse(nlri_bin, addpath=add_path)
                 return dict(afi_safi=(afi, safi), nexthop=nexthop, nlri=nlri)
             else:
-                return dict(afi_safi=(afi, safi), nexthop=nexthop_bin, nlri=nlri_bin)
+                return dict(afi_safi=(afi, safi), nexthop=binascii.b2a_hex(nexthop_bin).decode('ascii'),
+                            nlri=binascii.b2a_hex(nlri_bin).decode('ascii'))
 
         # for l2vpn
         elif afi == afn.AFNUM_L2VPN:
